@@ -223,15 +223,14 @@ Qed.
    means no file of the target is handed to a file type *)
 Theorem generator_error_no_files c t e :
   r_err (exec_target itoa c t) = Some e ->
-  (forall x, e <> XUnknownType x) -> (forall fs, e <> XAssemble fs) ->
+  (forall fs, e <> XAssemble fs) ->
   r_files (exec_target itoa c t) = Some [].
 Proof.
   unfold exec_target. destruct (tdir t); [reflexivity|].
   destruct (gen_loop itoa c t _ (tgens t) _ []) as [[evs files] err].
   destruct err; [reflexivity|].
-  destruct (find _ files); simpl; intros H H1 H2.
-  - inversion H; subst. exfalso. eapply H1; eauto.
-  - destruct (filter _ _); inversion H; subst. exfalso. eapply H2; eauto.
+  destruct (find _ files); simpl; intros H H2; [reflexivity|].
+  destruct (filter _ _); inversion H; subst. exfalso. eapply H2; eauto.
 Qed.
 
 Lemma exec_body_hook g vis ord body evs b w : exec_body itoa g vis ord body = (evs, b, Some w) ->
@@ -273,7 +272,7 @@ Proof.
   unfold exec_target. destruct (tdir t); [intros H; inversion H; congruence|].
   destruct (gen_loop itoa c t _ (tgens t) _ []) as [[evs fs] err].
   destruct err; [intros H; inversion H; congruence|].
-  destruct (find _ fs); simpl; [discriminate|]. intros H; inversion H; subst. intros _.
+  destruct (find _ fs); simpl; [intros H; inversion H; congruence|]. intros H; inversion H; subst. intros _.
   destruct (filter (fun n => mem_str n (assemble_fails c)) (map fname files)); reflexivity.
 Qed.
 
